@@ -14,9 +14,10 @@ open Discret.Room Discret.Rust Discret.Ingest Discret.Gen.RoomKernel
 
 /-- the `NodeToInsert` of an incoming row whose entity the data model knows -/
 def ntiOf (n : InNode) (old : Option NodeRow) (size : Nat) : NodeToInsert :=
-  { node := some { room_id := n.row.room, key := n.row.key, mdate := n.row.mdate, size := .ok size },
+  { node := some { room_id := n.row.room, key := n.row.key, mdate := n.row.mdate, _entity := n.row.ent, size := .ok size },
     entity_name := some n.row.ent,
     old_room_id := old.bind (·.room),
+    old_entity := old.map (·.ent),
     old_mdate := (old.map (·.mdate)).getD 0,
     old_verifying_key := old.map (·.key) }
 
@@ -24,10 +25,10 @@ theorem hmGet_findRoom (s : Inst) (r : Nat) :
     hmGet (fun (x : Room) => x.id) s.rooms r = findRoom s r := rfl
 
 /-- `validate_node` (regenerated) = `Ingest.validateNode` for the switches that describe the code:
-    the entity of the stored row is not compared, a room-less stored row is never replaced -/
+    a stored row of another entity and a room-less stored row are never replaced -/
 theorem validate_node_eq (d : Ingest.Defects) (s : Inst) (n : InNode) (old : Option NodeRow) (size max : Nat)
     (hbig : n.big = decide (size > max))
-    (hd1 : d.entityChangeUnchecked = true) (hd2 : d.roomlessReplaceUnchecked = false) :
+    (hd1 : d.entityChangeUnchecked = false) (hd2 : d.roomlessReplaceUnchecked = false) :
     RoomAuthorisations_validate_node { rooms := s.rooms, max_node_size := max } (ntiOf n old size)
       = validateNode d s n old := by
   unfold RoomAuthorisations_validate_node validateNode ntiOf canIn needRight serializedSize
@@ -47,34 +48,36 @@ theorem validate_node_eq (d : Ingest.Defects) (s : Inst) (n : InNode) (old : Opt
         | none => simp [h2]
         | some rm => rcases bcases rm .mutateSelf with hc | hc <;> simp [h2, hc]
       | some l =>
+        by_cases hent : l.ent = n.row.ent
+        case neg => simp [hent]
         cases hlr : l.room with
-        | none => simp [hlr]
+        | none => simp [hlr, hent]
         | some oldRoom =>
           by_cases hk : l.key = n.row.key <;> by_cases he : oldRoom = room
           · subst he
             cases h2 : findRoom s oldRoom with
-            | none => simp [hlr, hk, h2]
-            | some rm => rcases bcases rm .mutateSelf with hc | hc <;> simp [hlr, hk, h2, hc]
+            | none => simp [hent, hlr, hk, h2]
+            | some rm => rcases bcases rm .mutateSelf with hc | hc <;> simp [hent, hlr, hk, h2, hc]
           · cases h1 : findRoom s oldRoom with
-            | none => simp [hlr, hk, he, h1]
+            | none => simp [hent, hlr, hk, he, h1]
             | some r1 =>
               cases h2 : findRoom s room with
-              | none => rcases bcases r1 .mutateSelf with hc | hc <;> simp [hlr, hk, he, h1, h2, hc]
+              | none => rcases bcases r1 .mutateSelf with hc | hc <;> simp [hent, hlr, hk, he, h1, h2, hc]
               | some r2 =>
                 rcases bcases r1 .mutateSelf with hc | hc <;> rcases bcases r2 .mutateSelf with hc2 | hc2 <;>
-                  simp [hlr, hk, he, h1, h2, hc, hc2]
+                  simp [hent, hlr, hk, he, h1, h2, hc, hc2]
           · subst he
             cases h2 : findRoom s oldRoom with
-            | none => simp [hlr, hk, h2]
-            | some rm => rcases bcases rm .mutateAll with hc | hc <;> simp [hlr, hk, h2, hc]
+            | none => simp [hent, hlr, h2]
+            | some rm => rcases bcases rm .mutateAll with hc | hc <;> simp [hent, hlr, hk, h2, hc]
           · cases h1 : findRoom s oldRoom with
-            | none => simp [hlr, hk, he, h1]
+            | none => simp [hent, hlr, hk, he, h1]
             | some r1 =>
               cases h2 : findRoom s room with
-              | none => rcases bcases r1 .mutateAll with hc | hc <;> simp [hlr, hk, he, h1, h2, hc]
+              | none => rcases bcases r1 .mutateAll with hc | hc <;> simp [hent, hlr, hk, he, h1, h2, hc]
               | some r2 =>
                 rcases bcases r1 .mutateAll with hc | hc <;> rcases bcases r2 .mutateAll with hc2 | hc2 <;>
-                  simp [hlr, hk, he, h1, h2, hc, hc2]
+                  simp [hent, hlr, hk, he, h1, h2, hc, hc2]
 
 /-- the decision of the model for one deletion record whose (source) entity the data model knows:
     the right of the record's author at the deletion date in the room the record names, own-rows right
